@@ -22,13 +22,13 @@ int fft_cache_capacity();
 using namespace vf;
 using namespace dsplib;
 
-enum Kind { FFT_C, FFT_R, IFFT, IRFFT, HOLD_C, HOLD_R, HOLD_I, USE, BAD_C, HOLD_IR, HOLD_Z };
+enum Kind { FFT_C, FFT_R, IFFT, IRFFT, HOLD_C, HOLD_R, HOLD_I, USE, BAD_C, HOLD_IR, HOLD_Z, PAD_C, PAD_R };
 struct Req {
     Kind kind;
     int n;   // length; for USE: index of the held plan (mod number held)
 };
 static std::string rname(const Req& r) {
-    static const char* k[] = {"fft", "rfft", "ifft", "irfft", "holdC", "holdR", "holdI", "use", "fftplan-wrong-length", "holdIR", "holdCzt"};
+    static const char* k[] = {"fft", "rfft", "ifft", "irfft", "holdC", "holdR", "holdI", "use", "fftplan-wrong-length", "holdIR", "holdCzt", "fftpad", "rfftpad"};
     return std::string(k[r.kind]) + std::to_string(r.n);
 }
 
@@ -78,6 +78,8 @@ static Out exec(const Req& q, std::vector<Held>& held) {
 }
 static Out exec_raw(const Req& q, std::vector<Held>& held) {
     switch (q.kind) {
+    case PAD_C: return flat(fft(cin(q.n / 1000, 21), q.n % 1000));    // n = input length * 1000 + transform length
+    case PAD_R: return flat(rfft(rin(q.n / 1000, 22), q.n % 1000));
     case BAD_C: {
         FftPlan p(q.n);
         return flat(p.solve(cin(q.n + 1, 18)));
@@ -176,6 +178,8 @@ static int primary_key(const Req& q, bool real_cache) {
     case HOLD_I: return real_cache ? 0 : q.n;
     case IRFFT:
     case HOLD_IR: return real_cache ? 0 : q.n / 2;
+    case PAD_C: return real_cache ? 0 : q.n % 1000;
+    case PAD_R: return real_cache ? q.n % 1000 : 0;
     case FFT_R:
     case HOLD_R: return real_cache ? q.n : 0;
     default: return 0;
@@ -225,7 +229,7 @@ static SeqResult run_seq(const std::vector<Req>& seq, const std::vector<Out>& fr
                                   o.size(), ref->size());
                     res.site = "result";
                 }
-                int nreq = q.kind == USE ? 1 << 20 : q.n;
+                int nreq = q.kind == USE ? 1 << 20 : ((q.kind == PAD_C || q.kind == PAD_R) ? q.n % 1000 : q.n);
                 const bool thrown = is_thrown(o);   // a rejected request need not have cached its plan
                 std::string e1 = lru_check(Bc, Ac, K, thrown ? 0 : primary_key(q, false), nreq);
                 std::string e2 = lru_check(Br, Ar, K, thrown ? 0 : primary_key(q, true), nreq);
@@ -263,6 +267,7 @@ int main(int argc, char** argv) {
         {"B", {{FFT_R, 16}, {FFT_R, 12}, {FFT_R, 7}, {FFT_R, 60}, {FFT_R, 53}, {FFT_R, 30}}},
         {"C", {{FFT_C, 12}, {FFT_R, 12}, {IFFT, 10}, {IRFFT, 12}, {FFT_C, 53}, {FFT_R, 15}}},
         {"E", {{IRFFT, 12}, {IRFFT, 13}, {IRFFT, 14}, {BAD_C, 12}, {FFT_C, 12}, {FFT_R, 14}}},
+        {"G", {{PAD_C, 5016}, {PAD_C, 12016}, {PAD_C, 20016}, {PAD_R, 5016}, {PAD_R, 12016}, {FFT_C, 16}}},
         {"F", {{HOLD_IR, 12}, {HOLD_IR, 20}, {IRFFT, 14}, {IRFFT, 12}, {HOLD_Z, 5}, {HOLD_Z, 9}, {FFT_C, 16}, {USE, 0}, {USE, 1}, {USE, 2}}},
         {"D", {{FFT_C, 12}, {FFT_C, 60}, {FFT_C, 53}, {FFT_R, 30}, {HOLD_C, 60}, {HOLD_R, 30}, {HOLD_I, 12}, {HOLD_C, 53}, {USE, 0}, {USE, 1}}},
     };
